@@ -40,6 +40,7 @@ def select(f0: int, f1: int, f2: int, f3: int, aw0: bool, aw1: bool, aw2: bool, 
     pre: 0 <= y0 <= YMAX and 0 <= y1 <= YMAX and 0 <= y2 <= YMAX and 0 <= y3 <= YMAX
     post: _
     """
+    xs.path_start()
     k = K
     fs = [f0, f1, f2, f3][:k]
     aws = [aw0, aw1, aw2, aw3][:k]
@@ -133,6 +134,7 @@ def glue(idx: int, s1: int, s2: int, s3: int, fb: bool) -> bool:
     pre: LO <= idx < HI and 0 <= s1 < 3 and 0 <= s2 < 3 and 0 <= s3 < 3
     post: _
     """
+    xs.path_start()
     idx = xs.pick(idx, LO, HI)
     xs.REAL_LRU = True  # every lru_cache of the code under test really caches during this path (CrossHair would bypass it) ...
     xs.clear_ahbicht_caches()  # ... and starts empty
